@@ -130,7 +130,7 @@ func (e *emitter) op(name string, args ...string) string {
 	fmt.Fprintf(e.w, "%s\n", res)
 	// a sample of the ops is executed a second time at the end of the run, in reverse order (see replaySample)
 	if !e.replaying && res != "hang" {
-		if _, slow := opLimits[name]; !slow {
+		if opLimit(name) <= time.Minute { // the process-level scenarios (limits of minutes) are not repeated
 			e.seen++
 			if len(e.sample) < 400 && (e.seen%17 == 3 || e.seen < 8) {
 				e.sample = append(e.sample, sampled{name, append([]string{}, args...), res})
